@@ -110,7 +110,11 @@ def check(m, run):
         end1(m, run, rd)
     from . import c16 as _c16
     _c16.check_binomial(m, run)
-    kv2(m, run)
+    n1 = len(run.obs)
+    _sd.do2(m, run)
+    do_ok = all(o.ok for o in run.obs[n1:])
+    with run.corroborating(do_ok, 'DO2', rules=('KV2.pad-ends', 'KV2.segment-knots-from-own-knots')):
+        kv2(m, run)
     pr1(m, run)
     skel_rows(m, run)
     run.floor('GD4.validation-guard', 4, 'bezier x2, num, degree<2')
